@@ -25,7 +25,7 @@ func init() {
 		Rule: "ALL strictly ascending subsets of sizes 1..6 of a 12-string universe built around the recursion x EVERY maxSize 1..len+2; keyzoo sets of up to 300 keys x maxSize in {1,2,3,5,7,16,64,len,len+1}; " +
 			"thorough adds sets of 5000 generated keys with 40-byte common prefixes. Non-trivial+distinct = hash of (keys, maxSize) with >= 2 keys.",
 		Assumptions: []string{"non-empty strictly ascending key lists, maxSize >= 1"},
-		Flavours:    releaseOnly,
+		Flavours:    releaseThenGo126,
 		Required: []string{"single-key-list", "maxSize=1", "maxSize>=len", "shard/single-key", "shard/full", "key-equals-common-prefix-of-successors", "split/restart-on-shorter-prefix",
 			"first-byte-distinct", "bytes/nul", "bytes/>=0x80", "deep-common-prefix"},
 		Families: func(c *mon.Config) []mon.Family {
